@@ -22,6 +22,7 @@ StepEdge(e) ==
   /\ e.ev = "edge"
   /\ \A i \in 1..Len(e.items) : Report(e.case, EdgeFails(e.items[i]), e.items[i])
   /\ \A i \in 1..Len(e.pairs) : Report(e.case, EdgeBinFails(e.pairs[i]), e.pairs[i])
+  /\ \A i \in 1..Len(e.far) : Report(e.case, FarCornersFails(e.far[i]), e.far[i])
 \* a Rectangle method panicked: the property promises a result for every pair of representable rectangles
 StepPanic(e) == e.ev = "panic" /\ Report(e.case, {"library_call_panicked"}, [msg |-> e.msg, loc |-> e.loc])
 StepUn(e) ==
